@@ -1,6 +1,7 @@
 import OPM.Model.ArgRegex
 import OPM.Lemmas.ArgRegex
 import OPM.Lemmas.ArgRegexIntro
+import OPM.Lemmas.ArgRegexLang
 /-!
 # C22 Command argument patterns accept exactly their documented language
 
@@ -374,6 +375,136 @@ theorem old_pattern_accepted_undocumented :
     acceptCategoricalOld [['X']] [['A'], ['B']] "+A".toList = some "+A".toList ∧
     acceptCategoricalOld [['X']] [['A'], ['B']] "A++B".toList = some "A++B".toList ∧
     acceptCategoricalOld [['A'], ['B']] [] [] = some [] := by decide
+
+/-! ## The emitted regular expressions
+
+`astNumber` / `astNumberOptional` / `astCategorical` are the abstract syntax of the patterns the builders emit: on
+every run the pattern text returned by the Python builder is parsed with CPython's regex parser and decided
+structurally equal to these ASTs (driver op `ast`, see Model/ArgRegexAst.lean for the normalisation).  `Lang` is the
+standard declarative semantics of regular expressions.  The theorems below say that the language of the emitted
+expression is exactly the documented language — and therefore exactly what the acceptors accept. -/
+
+/-- **The numeric pattern denotes the documented language**, for all unit lists, both flags, all strings. -/
+theorem regex_number_language (units : List Str) (nn io : Bool) (s : Str) :
+    Lang (astNumber units nn io) s ↔ ∃ n u, DocNumber units nn io s n u := by
+  unfold astNumber DocNumber
+  rw [lang_mkSeq]
+  cases hu : units with
+  | nil =>
+    simp only [List.isEmpty_nil, if_true, List.append_nil, List.cons_append, List.nil_append, lang_seqL_cons,
+      lang_seqL_nil, lang_spaces, lang_grp, lang_numAlts]
+    constructor
+    · rintro ⟨w1, y, rfl, h1, n, y1, rfl, hn, w2, y2, rfl, h2, w3, y3, rfl, h3, rfl⟩
+      exact ⟨n, none, hn, w1, w2 ++ w3, h1, by simp [allSpace_append, h2, h3], Or.inl ⟨trivial, rfl, by simp⟩⟩
+    · rintro ⟨n, u, hn, w1, w2, h1, h2, ⟨_, _, rfl⟩ | ⟨x, _, hx, _⟩⟩
+      · exact ⟨w1, n ++ w2, by simp, h1, n, w2, rfl, hn, w2, [], by simp, h2, [], [], rfl, rfl, rfl⟩
+      · simp at hx
+  | cons x0 xs =>
+    simp only [List.isEmpty_cons, Bool.false_eq_true, if_false, List.cons_append, List.nil_append, lang_seqL_cons,
+      lang_seqL_nil, lang_spaces, lang_grp, lang_numAlts, lang_opt, lang_alts_lit]
+    constructor
+    · rintro ⟨w1, y, rfl, h1, n, y1, rfl, hn, w2, y2, rfl, h2, sp, y3, rfl, hsp, x, y4, rfl, hx, w3, y5, rfl, h3, rfl⟩
+      have hsp' : allSpace sp = true := by
+        rcases hsp with h | rfl
+        · have : sp = [' '] := by simpa [Lang] using h
+          subst this; decide
+        · rfl
+      exact ⟨n, some x, hn, w1, w2 ++ sp, h1, by simp [allSpace_append, h2, hsp'],
+        Or.inr ⟨x, w3, hx, rfl, h3, by simp⟩⟩
+    · rintro ⟨n, u, hn, w1, w2, h1, h2, ⟨h0, _, _⟩ | ⟨x, w3, hx, _, h3, rfl⟩⟩
+      · cases h0
+      · exact ⟨w1, n ++ w2 ++ x ++ w3, by simp, h1, n, w2 ++ x ++ w3, by simp, hn, w2, x ++ w3, by simp, h2,
+          [], x ++ w3, rfl, Or.inr rfl, x, w3, rfl, hx, w3, [], by simp, h3, rfl⟩
+
+/-- **The categorical pattern denotes the documented language**, for all option lists and all strings. -/
+theorem regex_categorical_language (ex ad : List Str) (s : Str) :
+    Lang (astCategorical ex ad) s ↔ ∃ o w, s = o ++ w ∧ allSpace w = true ∧ DocCategorical ex ad o := by
+  unfold astCategorical
+  simp only [lang_mkSeq, lang_seqL_cons, lang_seqL_nil, lang_spaces, lang_grp, lang_mkAlt, List.mem_append,
+    List.mem_singleton]
+  -- the value part
+  have hval : ∀ o : Str,
+      (∃ r, (r ∈ (if ex.isEmpty then [Re.never] else ex.map lit) ∨
+          r = mkSeq [mkAlt (ad.map lit), .star (mkSeq [.chr '+', mkAlt (ad.map lit)])]) ∧ Lang r o) ↔
+        DocCategorical ex ad o := by
+    intro o
+    unfold DocCategorical
+    constructor
+    · rintro ⟨r, hr | rfl, ho⟩
+      · left
+        cases hex : ex with
+        | nil => simp [hex] at hr; subst hr; simp [Lang] at ho
+        | cons e es =>
+          rw [hex] at hr
+          simp only [List.isEmpty_cons, Bool.false_eq_true, if_false] at hr
+          obtain ⟨x, hx, rfl⟩ := List.mem_map.mp hr
+          rw [lang_lit] at ho; exact ho ▸ hx
+      · right
+        rw [lang_mkSeq] at ho
+        simp only [lang_seqL_cons, lang_seqL_nil, lang_alts_lit, lang_plus_items] at ho
+        obtain ⟨a, y, rfl, ha, t, e, rfl, ⟨items, hi, rfl⟩, rfl⟩ := ho
+        refine ⟨a :: items, by simp, ?_, by simp [plusJoin]⟩
+        intro x hx
+        rcases List.mem_cons.mp hx with h | h
+        · exact h ▸ ha
+        · exact hi x h
+    · rintro (hex | ⟨items, hne, hmem, rfl⟩)
+      · refine ⟨lit o, Or.inl ?_, (lang_lit o o).mpr rfl⟩
+        have : ex.isEmpty = false := by cases ex <;> simp_all
+        simp only [this, Bool.false_eq_true, if_false]
+        exact List.mem_map.mpr ⟨o, hex, rfl⟩
+      · cases items with
+        | nil => exact absurd rfl hne
+        | cons a as =>
+          refine ⟨_, Or.inr rfl, ?_⟩
+          rw [lang_mkSeq]
+          simp only [lang_seqL_cons, lang_seqL_nil, lang_alts_lit, lang_plus_items]
+          exact ⟨a, plusTail as, rfl, hmem a (by simp), plusTail as, [], by simp,
+            ⟨as, fun x hx => hmem x (by simp [hx]), rfl⟩, rfl⟩
+  constructor
+  · rintro ⟨o, y, rfl, ho, w, e, rfl, hw, rfl⟩
+    exact ⟨o, w, by simp, hw, (hval o).mp ho⟩
+  · rintro ⟨o, w, rfl, hw, hd⟩
+    exact ⟨o, w, rfl, (hval o).mpr hd, w, [], by simp, hw, rfl⟩
+
+/-- The emitted numeric expression and the acceptor (the model of `re.search` that the correspondence ties to
+    CPython, captured groups included) accept the same strings. -/
+theorem regex_number_is_acceptor (units : List Str) (nn io : Bool) (s : Str) :
+    Lang (astNumber units nn io) s ↔ (acceptNumber units nn io s).isSome = true := by
+  rw [regex_number_language, number_accepts_iff_documented]
+
+theorem regex_categorical_is_acceptor (ex ad : List Str) (s : Str) :
+    Lang (astCategorical ex ad) s ↔ (acceptCategorical ex ad s).isSome = true := by
+  rw [regex_categorical_language, categorical_accepts_iff_documented]
+
+theorem regex_number_optional_is_acceptor (units : List Str) (nn io : Bool) (s : Str) :
+    Lang (astNumberOptional units nn io) s ↔ (acceptNumberOptional units nn io s).isSome = true := by
+  unfold astNumberOptional
+  rw [lang_mkAlt, optional_number_accepts_iff, ← regex_number_language]
+  simp [lang_spaces]
+
+/-- The normalisation "`$` is the end of the string" is sound for these patterns: `$` also matches before a final
+    line feed, but a string `t ++ "\n"` with `t` in the language is in the language itself (the patterns end in
+    `\s*`). -/
+theorem dollar_is_end (units : List Str) (nn io : Bool) (ex ad : List Str) (t : Str) :
+    (Lang (astNumber units nn io) t → Lang (astNumber units nn io) (t ++ ['\n'])) ∧
+    (Lang (astCategorical ex ad) t → Lang (astCategorical ex ad) (t ++ ['\n'])) := by
+  constructor
+  · rw [regex_number_language, regex_number_language]
+    rintro ⟨n, u, hn, w1, w2, h1, h2, ⟨h0, hu, rfl⟩ | ⟨x, w3, hx, hu, h3, rfl⟩⟩
+    · exact ⟨n, u, hn, w1, w2 ++ ['\n'], h1, by rw [allSpace_append, h2]; decide, Or.inl ⟨h0, hu, by simp⟩⟩
+    · exact ⟨n, u, hn, w1, w2, h1, h2, Or.inr ⟨x, w3 ++ ['\n'], hx, hu, by rw [allSpace_append, h3]; decide, by simp⟩⟩
+  · rw [regex_categorical_language, regex_categorical_language]
+    rintro ⟨o, w, rfl, hw, hd⟩
+    exact ⟨o, w ++ ['\n'], by simp, by rw [allSpace_append, hw]; decide, hd⟩
+
+/-! Non-vacuity: the ASTs are the familiar patterns. -/
+example : Lang (astCategorical [['X']] [['A'], ['B']]) "A+B ".toList :=
+  (regex_categorical_is_acceptor _ _ _).mpr (by decide)
+example : ¬ Lang (astCategorical [['X']] [['A'], ['B']]) "AB".toList := by
+  rw [regex_categorical_is_acceptor]; decide
+example : Lang (astNumber ["L/h".toList] false false) " -1.5 L/h".toList :=
+  (regex_number_is_acceptor _ _ _ _).mpr (by decide)
 
 /-! ## Introspection: the lists the UI / editor derive from a pattern are the lists it was built from -/
 
